@@ -84,15 +84,31 @@ def make_arch_scan(nodes, edges, limit=None, keep=None):
 
 
 _SPELL = [0]
+# Set by the checks that compare verdicts and error families only (C01, C10, C13, C17): message texts legitimately show a
+# name through its own str(), so the checks that read messages keep plain strings.
+MEMBER_SPELLING = False
 
 
 def _spell_names(names):
     """The documented spellings of a module list (str | Sequence[str]), rotated: a list, a tuple, and for a single name the bare string."""
     _SPELL[0] += 1
     k = _SPELL[0] % 4
+    if MEMBER_SPELLING and (_SPELL[0] // 4) % 3 == 2:
+        # every third round of spellings: str-Enum-like members (a str whose str() is not its value) instead of plain strings
+        names = [StrMember(x) for x in names]
     if len(names) == 1 and k in (1, 3):
         return names[0]
     return tuple(names) if k == 2 else list(names)
+
+
+class StrMember(str):
+    """A str whose str() differs from its value - what a member of `class Mod(str, Enum)` is on Python >= 3.11
+    (str(Mod.DOMAIN) == 'Mod.DOMAIN' although Mod.DOMAIN == 'app.domain' and both hash alike)."""
+
+    def __str__(self):
+        return "Member<" + str.__str__(self).upper() + ">"
+
+    __repr__ = __str__
 
 
 def build_rule(spec):
